@@ -63,6 +63,23 @@ func c02Gen(g *core.Gen) {
 			g.Emit(&c02Case{Kind: "p2", P2: &p2Case{Cfg: cfg, Dmg: []scen.Dmg{m}, G: 1, DoubleCheck: ci%2 == 0, Extra: c02Extras}})
 		}
 	}
+	// Repair that fails midway: the k-th write fails (no effect); everything written before must still be
+	// exact and listed ("whether Repair succeeds or fails")
+	for ci, cfg := range cfgs {
+		nrec := nRecFiles(cfg.Blocks)
+		menu := scen.DataMenu(cfg.Sizes, cfg.Slice, nrec, false)
+		for k := 1; k <= 2; k++ {
+			forCombos(len(menu), k, func(ix []int) {
+				var ds []scen.Dmg
+				for _, i := range ix {
+					ds = append(ds, menu[i])
+				}
+				for fw := 1; fw <= 3; fw++ {
+					g.Emit(&c02Case{Kind: "p2", P2: &p2Case{Cfg: cfg, Dmg: ds, G: 1, DoubleCheck: (fw+ci)%2 == 0, Extra: c02Extras, FailWrite: fw}})
+				}
+			})
+		}
+	}
 	// a file above the 16 KiB hash boundary: damage beyond the first 16 KiB combined with bad recovery data
 	bigCfg := scen.P2Config{Sizes: []int{19000, 5000}, Slice: 1000, Blocks: 3, Class: "uniq", G: 2}
 	bigMenu := []scen.Dmg{{Op: "ovw", F: 0, At: 18}, {Op: "ovw", F: 0, At: 0}, {Op: "ovw", F: 1, At: 4}, {Op: "del", F: 0}, {Op: "del", F: 1}, {Op: "ins", F: 0, At: 17500, N: 1},
@@ -93,7 +110,7 @@ func c02Gen(g *core.Gen) {
 						}
 						return
 					}
-					for k := 0; k <= 4; k++ {
+					for k := 0; k <= 5; k++ {
 						vd[j] = k
 						recV(j + 1)
 					}
@@ -110,6 +127,17 @@ func c02Gen(g *core.Gen) {
 			}
 		}
 		recD(0)
+	}
+	// PAR1 files above the 16 KiB hash boundary with wrong parity beyond the first 16 KiB
+	bigP1 := scen.P1Config{Sizes: []int{19000, 5000, 17500}, Volumes: 2}
+	for f0 := 0; f0 <= 5; f0++ {
+		for f2 := 0; f2 <= 2; f2++ {
+			for v1 := 0; v1 <= 5; v1++ {
+				for v2 := 0; v2 <= 5; v2 += 5 {
+					g.Emit(&c02Case{Kind: "p1", P1: &p1Case{Cfg: bigP1, FileDmg: []int{f0, 0, f2}, VolDmg: []int{v1, v2}, DC: (f0+v1)%2 == 0, Extra: c02Extras1}})
+				}
+			}
+		}
 	}
 	// Create: inputs untouched, only set files written
 	for _, s := range []int{4, 8} {
